@@ -28,6 +28,22 @@ fn main() {
                 writeln!(out, "{v}").unwrap();
             }
         }
+        // c12 <manifest> <locations.json> <reference font> (<label> <font>)... : resolved outlines equal across option sets
+        "c12" => {
+            let man: serde_json::Value = serde_json::from_slice(&std::fs::read(&args[2]).unwrap()).unwrap();
+            let locs: Vec<Vec<f64>> = serde_json::from_slice(&std::fs::read(&args[3]).unwrap()).unwrap_or_default();
+            let reference = std::fs::read(&args[4]).unwrap();
+            let mut others = vec![];
+            let mut i = 5;
+            while i + 1 < args.len() {
+                if let Ok(d) = std::fs::read(&args[i + 1]) {
+                    others.push((args[i].clone(), d));
+                }
+                i += 2;
+            }
+            let v = std::panic::catch_unwind(|| eval::draw::check(&man, &reference, &others, &locs)).unwrap_or_else(|_| json!({"oracle_panicked": true}));
+            writeln!(out, "{v}").unwrap();
+        }
         // c17 <font>... : summary fields recomputed from the tables
         "c17" => {
             // a font path prefixed with "noranges:" comes from a source that sets its Unicode ranges explicitly
